@@ -1,5 +1,6 @@
 """Executes a `gin`-domain case (a history of API operations) on the real gin from /repo."""
 import contextlib
+import os
 import re
 
 import core
@@ -124,7 +125,11 @@ class Session:
       names.append(n)
     if sig['varkw']:
       params.append('**kw')
-    rec = ('_rec(_oid, _sel, [' + ', '.join(f'({n!r}, {n})' for n in names) + '], '
+    recnames = [f'({n!r}, {n})' for n in names]
+    if kind != 'fn':
+      g['_selfm'] = Opaque.get(5000 + oid)   # the instance/class itself is reported as a fixed marker
+      recnames.insert(0, f'({pos[0][0]!r}, _selfm)')
+    rec = ('_rec(_oid, _sel, [' + ', '.join(recnames) + '], '
            + ('args' if sig['varargs'] else '()') + ', ' + ('kw' if sig['varkw'] else '{}') + ')')
     plist = ', '.join(params)
     if kind == 'fn':
@@ -224,8 +229,6 @@ class Session:
     rec = self.last
     if rec is None:
       return {'err': 'NoRecord', 'ran': False}
-    if ent.kind != 'fn':
-      rec['params'].insert(0, [op['_selfname'], op['args'][0]])
     return {'ok': rec}
 
   def op_ecall(self, op):
@@ -243,10 +246,6 @@ class Session:
         fn = gin.get_configurable(ent.original) if ent.api == 'register' else ent.returned
         r = fn(*args, **kwargs)
       if ent.kind != 'fn':
-        for sel_, rec_ in reversed(self.log):
-          if sel_ == ent.selector:
-            rec_['params'].insert(0, [op['_selfname'], op['args'][0]])
-            break
         return {'res': [ent.selector, self.counts.get(ent.oid, 1) - 1]}
       return encode(r, gin, self)
     finally:
@@ -350,6 +349,9 @@ class Session:
       m = re.match(r'^# Set in (.*):$', line)
       if m:
         pending = m.group(1)
+        tmp = (getattr(self, '_tmp', None) or '\0') + os.sep
+        if pending.startswith(tmp):
+          pending = pending[len(tmp):]
         continue
       if pending and line and not line.startswith(('#', ' ')) and ' = ' in line + ' ':
         key = line.split(' = ')[0].rstrip(' \\').rstrip()
@@ -436,6 +438,147 @@ class Session:
     returned = gin.external_configurable(cls) if op['_api'] == 'external' else gin.register(cls)
     self.entries[op['obj']] = Entry(op['obj'], cls, returned, op['_api'], 'init', op['_selector'])
 
+  # ---------------------------------------------------------------- parsing of config texts
+  def tmpdir(self, add_path=True):
+    if getattr(self, '_tmp', None) is None:
+      import tempfile
+      base = os.environ.get('VERIF_RUN_DIR') or tempfile.gettempdir()
+      self._tmp = tempfile.mkdtemp(prefix='ginverif-', dir=base)
+      if add_path:
+        self.gin.config.add_config_file_search_path(self._tmp)
+    return self._tmp
+
+  def cleanup(self):
+    if getattr(self, '_tmp', None):
+      import shutil
+      shutil.rmtree(self._tmp, ignore_errors=True)
+      self._tmp = None
+
+  def write_files(self, files):
+    for name, text in (files or {}).items():
+      path = os.path.join(self.tmpdir(), name)
+      os.makedirs(os.path.dirname(path), exist_ok=True)
+      with open(path, 'w') as f:
+        f.write(text)
+
+  def skip_arg(self, sk):
+    if sk['k'] == 'no':
+      return False
+    if sk['k'] == 'all':
+      return True
+    t = sk.get('_type', 'list')
+    return {'list': list, 'tuple': tuple, 'set': set}[t](sk['v'])
+
+  def tree_json(self, node):
+    return [node.filename, list(node.imports), [self.tree_json(n) for n in node.includes]]
+
+  def parse_failure(self, e):
+    cls = core.err_class(e)
+    if isinstance(e, SyntaxError) or cls in ('TokenError',):
+      return {'err': 'SyntaxError', 'chain': [], 'lineno': getattr(e, 'lineno', None)}
+    if isinstance(e, ImportError):
+      cls = 'ImportError'
+    if isinstance(e, OSError):
+      cls = 'OSError'
+    chain = []
+    tmp = (getattr(self, '_tmp', None) or '\0') + os.sep
+    for m in re.finditer(r'In (?:file "([^"]*)",|bindings string) line (\d+)', str(e)):
+      fn = m.group(1)
+      if fn is not None and fn.startswith(tmp):
+        fn = fn[len(tmp):]
+      chain.append([fn, int(m.group(2))])
+    return {'err': cls, 'chain': chain, 'msg': str(e)[:300]}
+
+  def op_parse(self, op):
+    gin = self.gin
+    self.write_files(op.get('_files'))
+    skip = self.skip_arg(op['skip'])
+    kw = {} if (op['skip']['k'] == 'no' and op.get('_default_skip', True)) else {'skip_unknown': skip}
+    try:
+      if op['file'] is None:
+        text = op['_text']
+        if op.get('_as_list'):
+          text = text.rstrip('\n').split('\n')
+        includes, imports = gin.parse_config(text, **kw)
+        return {'ok': {'includes': [self.tree_json(n) for n in includes], 'imports': list(imports)}}
+      node = gin.parse_config_file(op['file'], **kw)
+      return {'ok': {'includes': [self.tree_json(n) for n in node.includes], 'imports': list(node.imports)}}
+    except Exception as e:  # pylint: disable=broad-except
+      return self.parse_failure(e)
+
+  def op_resolve(self, op):
+    """Sets up search locations and readers with the file present at the given (location, reader)
+    pairs and reports which copy parse_config_file used."""
+    import io
+    gin = self.gin
+    cfg = self.cfg
+    base = self.tmpdir(add_path=False)
+    name = op['_name']
+    locdirs = {}
+    for lab in op['prefixes']:
+      if lab == '':
+        locdirs[lab] = ''
+        continue
+      d = os.path.join(base, lab)
+      os.makedirs(d, exist_ok=True)
+      locdirs[lab] = d
+      if d not in cfg._LOCATION_PREFIXES:  # pylint: disable=protected-access
+        cfg.add_config_file_search_path(d)
+    if op['abs']:
+      name = os.path.join(base, 'absdir', name)
+      os.makedirs(os.path.dirname(name), exist_ok=True)
+    tables = {}
+    for r in op['readers'][1:]:
+      tables[r] = {}
+
+      def reader(path, _t=tables[r]):
+        return contextlib.closing(io.StringIO(_t[path]))
+
+      def readable(path, _t=tables[r]):
+        return path in _t
+      cfg.register_file_reader(reader, readable)
+    for lab, r in op['present']:
+      path = name if op['abs'] else os.path.join(locdirs[lab], name)
+      content = f"which = '{lab}|{r}'\n"
+      if r == op['readers'][0]:
+        real = os.path.join(base, path)   # '' is the current directory = base while parsing
+        os.makedirs(os.path.dirname(real) or '.', exist_ok=True)
+        with open(real, 'w') as f:
+          f.write(content)
+      else:
+        tables[r][path] = content
+    cwd = os.getcwd()
+    os.chdir(base)   # the location '' is the current directory
+    try:
+      gin.parse_config_file(name)
+      return {'ok': gin.query_parameter('%which').split('|')}
+    except Exception as e:  # pylint: disable=broad-except
+      out = self.parse_failure(e)
+      m = re.search(r'Searched config paths: (\[.*\])', str(e))
+      if m:
+        import ast
+        searched = ast.literal_eval(m.group(1))
+        rev = {v: k for k, v in locdirs.items()}
+        out['chain'] = [[rev.get(x, x), 0] for x in searched]
+      return out
+    finally:
+      os.chdir(cwd)
+
+  def op_parsefiles(self, op):
+    gin = self.gin
+    self.write_files(op.get('_files'))
+    skip = self.skip_arg(op['skip'])
+    kw = {}
+    if op['skip']['k'] != 'no':
+      kw['skip_unknown'] = skip
+    if not op['finalize']:
+      kw['finalize_config'] = False
+    try:
+      nodes = gin.parse_config_files_and_bindings([f[0] for f in op['files']], op['_binding_lines'], **kw)
+      return {'ok': {'includes': [self.tree_json(n) for n in nodes], 'imports': []}}
+    except Exception as e:  # pylint: disable=broad-except
+      return self.parse_failure(e)
+
   def run_op(self, op):
     name = op['op']
     try:
@@ -465,6 +608,16 @@ class Session:
         r = encode(self.cfg.singleton_value(op['key'], ctor if op['ctor'] else None), self.gin)
       elif name == 'macrolookup':
         r = encode(self.cfg.ParserDelegate().macro(op['name']), self.gin)
+      elif name == 'parse':
+        return self.op_parse(op)
+      elif name == 'parsefiles':
+        return self.op_parsefiles(op)
+      elif name == 'resolve':
+        return self.op_resolve(op)
+      elif name == 'imports':
+        r = sorted({st.module for st in self.cfg._IMPORTS})  # pylint: disable=protected-access
+      elif name == 'curscope':
+        r = list(self.gin.current_scope())
       elif name == 'locked':
         r = bool(self.gin.config_is_locked())
       elif name == 'registry':
@@ -509,7 +662,10 @@ class Session:
 def run_impl(case):
   Opaque._all.clear()  # pylint: disable=protected-access
   s = Session()
-  return {'out': [s.run_op(op) for op in case['ops']]}
+  try:
+    return {'out': [s.run_op(op) for op in case['ops']]}
+  finally:
+    s.cleanup()
 
 
 def _strip_private(x):
@@ -522,6 +678,8 @@ def _strip_private(x):
 
 def with_locations(op):
   """Text forms of a binding carry the location gin records: ('bindings string', line)."""
+  if op.get('op') == 'register' and 'cls' not in op:
+    op = dict(op, cls=op.get('_kind', 'fn') != 'fn')
   if op.get('op') == 'bind' and 'loc' not in op:
     form = op.get('_form', 'tuple')
     line = {'text': 1, 'macro_text': 1, 'block': 2}.get(form)
@@ -539,7 +697,7 @@ def to_driver(case, impl):
 def strip(o):
   """Drops the harness-only fields of an implementation observation before comparing."""
   if isinstance(o, dict) and 'err' in o:
-    return {k: v for k, v in o.items() if k in ('err', 'missing')}
+    return {k: v for k, v in o.items() if k in ('err', 'missing', 'chain')}
   if isinstance(o, dict) and isinstance(o.get('ok'), dict) and 'body' in o['ok']:
     return {'ok': {'body': [strip(b) for b in o['ok']['body']]}}
   return o
